@@ -125,6 +125,12 @@ structure World where
   home : Str                              -- $HOME, absolute, no trailing slash
   cwd : Path                              -- os.getcwd()
   etc : List Str                          -- [str(p) for p in _find_etc_dirs()]
+  /-- Where the world's "/" really is (the harness's scratch root, e.g. `/tmp/x/r` or `/dev/shm/x/r`; `[]` = the real
+      root).  Only `get_default`'s `/dev` test sees it: that test is on the raw argument string. -/
+  mount : Str := []
+  /-- Which `/dev` test the tree under test has: `false` = `target_filename.startswith("/dev")` (as pinned, finding
+      C12-2), `true` = only the names of the process's streams (fixes/C12-2.diff). -/
+  devStreamsOnly : Bool := false
 
 def World.root (w : World) : Node := .dir w.rootDev w.rootCh
 def World.get (w : World) (p : Path) : Option Node := w.root.get p
@@ -389,6 +395,21 @@ def mergeMaps (maps : List (List (Str × Str))) : List (Str × Str) :=
 def mapWithout (m : List (Str × Str)) (removals : List Import) : List (Str × Str) :=
   m.filter fun kv => !(importOfName kv.1 ∈ removals) && !(importOfName kv.2 ∈ removals)
 
+/-- With fixes/C12-4.diff: is the dotted name `k` (a key or a value of the canonical map) named by `removals`?
+    `from a import b` (as coded), `import a.b` (new), or a star removal of `a` / of a package containing `a` (new,
+    the same rule as `ImportSet.without_imports`). -/
+def nameRemoved (removals : List Import) (k : Str) : Bool :=
+  let starMods : List (Option Str) :=
+    removals.filterMap fun r => if r.split.2 = star then some r.split.1 else none
+  decide (importOfName k ∈ removals) || decide ((⟨k, k⟩ : Import) ∈ removals) ||
+    (match (importOfName k).split.1 with
+     | some m => (dottedPrefixes m).any fun pfx => decide ((some pfx) ∈ starMods)
+     | none => false)
+
+/-- `ImportMap.without_imports` with fixes/C12-4.diff. -/
+def mapWithoutFixed (m : List (Str × Str)) (removals : List Import) : List (Str × Str) :=
+  m.filter fun kv => !(nameRemoved removals kv.1) && !(nameRemoved removals kv.2)
+
 /-! ## `_from_code`, `_from_data` -/
 
 structure DB where
@@ -403,6 +424,14 @@ def fromData (known mand : List Import) (canon : List (List (Str × Str))) (forg
     known := withoutImports known forget
     mandatory := withoutImports mand forget
     canonical := mapWithout (mergeMaps canon) forget }
+
+/-- `_from_data` with fixes/C12-4.diff. -/
+def fromDataFixed (known mand : List Import) (canon : List (List (Str × Str))) (forget : List Import) : DB :=
+  { fromData known mand canon forget with canonical := mapWithoutFixed (mergeMaps canon) forget }
+
+/-- The repaired canonical map recomputed from a database as coded (the driver's `canonical_fixed`; equal to what
+    `fromDataFixed` builds: `Props.fromDataFixed_eq_fixCanon`). -/
+def DB.fixCanon (db : DB) : DB := { db with canonical := mapWithoutFixed db.canonical db.forget }
 
 /-- The four accumulators of `_from_code`. -/
 structure Acc where
@@ -504,6 +533,22 @@ deriving DecidableEq, Repr
 
 def devPrefix : Str := "/dev".toList
 
+/-- `_DEV_STREAM_RE` of fixes/C12-2.diff: `/dev/(stdin|stdout|stderr|null|tty|fd/[0-9]+)\Z`. -/
+def devStreams : List Str := ["/dev/stdin", "/dev/stdout", "/dev/stderr", "/dev/null", "/dev/tty"].map String.toList
+def devFdPrefix : Str := "/dev/fd/".toList
+def isDevStream (t : Str) : Bool :=
+  decide (t ∈ devStreams) ||
+    (startsWith t devFdPrefix && !(t.drop 8).isEmpty && (t.drop 8).all fun c => decide ('0' ≤ c ∧ c ≤ '9'))
+
+/-- The argument string `get_default` really receives for the abstract target `t`: the names of the process's streams
+    are themselves, any other absolute path lives below the world's mount point, a relative path is passed as it is. -/
+def rawTarget (w : World) (t : Str) : Str :=
+  if t.head? = some '/' ∧ isDevStream t = false then w.mount ++ t else t
+
+/-- The test in front of `target_dirname = Filename(".")` (line 307), in the variant the tree has. -/
+def isDevTarget (w : World) (t : Str) : Bool :=
+  if w.devStreamsOnly then isDevStream (rawTarget w t) else startsWith (rawTarget w t) devPrefix
+
 /-- Lines 286-311: resolve the target, take the nearest safe ancestor (the target itself when it is a
     directory), `/dev…` targets mean the current directory. -/
 def targetDirname (w : World) (target : Str) : Except Err Path :=
@@ -512,7 +557,7 @@ def targetDirname (w : World) (target : Str) : Except Err Path :=
   match cands.find? safePath with
   | none => .error .valueError
   | some sp =>
-    if startsWith target devPrefix ∧ safePath w.cwd then .ok w.cwd else .ok sp
+    if isDevTarget w target ∧ safePath w.cwd then .ok w.cwd else .ok sp
 
 inductive WalkRes where
   | hit (db : DB)
